@@ -10,6 +10,11 @@ PROP = {'module': 'GolibsVerif.Theorems.C04',
              'idna.ToASCII as a parameter (oracle field)',
              'constants arpaV4Suffix/arpaV6Suffix/arpaV6MaxLen regenerated from netutil on every run'],
  'assumptions': ['net.IP.To4/To16, strconv.Itoa/FormatUint of a byte are modelled (ipTo4, ipTo16, itoa, hexDigit), sampled by the tie'],
- 'level_text': 'Lean theorems about the model of reversed.go: encoder produces the canonical PTR name; decoder inverts it in any case and '
-               'with a trailing dot; whatever the decoder accepts is canonical; tie by differential correspondence on every run',
- 'level_note': 'trusted: Lean kernel; correspondence (sampled); netip model; idna.ToASCII contract IDNA-1 where stated'}
+ 'level_text': 'Lean theorems about the model of reversed.go: encode_canon (IPToReversedAddr = canonical PTR name, never panics), '
+               'accepts_spelling (whatever IPFromReversedAddr accepts is, lower-cased and minus one dot, exactly the in-addr.arpa / '
+               'ip6.arpa spelling of the address it returns - no hypothesis on idna), decode_encode (every case variant of the canonical '
+               'name, with or without a trailing dot, decodes to the address, under IDNA-1), totality and error shape; the unconditional '
+               'accepts_only_canon is refuted by a machine-checked witness (ip6.arpa spelling of an IPv4-mapped address), recorded as a '
+               'known finding; tie by differential correspondence on every run',
+ 'level_note': 'accepts_only_canon holds as accepts_only_canon_partial (result not IPv4-mapped) and accepts_only_canon_v4; trusted: Lean '
+               'kernel; correspondence (sampled); netip model; idna.ToASCII contract IDNA-1 (hypothesis hT of decode_encode)'}
